@@ -50,6 +50,7 @@ pub fn order_menu() -> Vec<(String, String)> {
 
 pub struct C17 {
     tier: Tier,
+    n: u32,
     seqs: Vec<Vec<char>>,
     long: Vec<String>,
     menu: Vec<(String, String)>,
@@ -57,9 +58,14 @@ pub struct C17 {
 
 impl C17 {
     pub fn new(tier: Tier) -> C17 {
-        let n = tier.pick(6, 7);
+        Self::with_n(tier, tier.pick(6, 7))
+    }
+    pub fn with_bound(n: u32) -> C17 {
+        Self::with_n(Tier::Quick, n)
+    }
+    fn with_n(tier: Tier, n: u32) -> C17 {
         let seqs = (0..seqs_len(4, 0, n)).map(|i| chars(&string_at(&ALPHA, 0, n, i))).collect();
-        C17 { tier, seqs, long: long_seqs(), menu: order_menu() }
+        C17 { tier, n, seqs, long: long_seqs(), menu: order_menu() }
     }
 }
 
@@ -135,7 +141,7 @@ impl Prop for C17 {
     fn doms(&self) -> Vec<Dom> {
         let m = self.menu.len() as u64;
         vec![
-            Dom::new(format!("pairs:seqs<={}over{{a,b,c,d}}", self.tier.pick(6, 7)), self.seqs.len() as u64, 16).note("case = first sequence; inner loop = every second sequence; one reused instance per worker thread"),
+            Dom::new(format!("pairs:seqs<={}over{{a,b,c,d}}", self.n), self.seqs.len() as u64, 16).note("case = first sequence; inner loop = every second sequence; one reused instance per worker thread"),
             Dom::new("long-families", self.long.len() as u64, 4).note("lengths 0,1,19..22,39..41,64 x 5 shapes (heavy repetition), all ordered pairs"),
             Dom::new("call-orders<=3", m + m * m + m * m * m, 400).note("every sequence of <= 3 similarity calls on ONE fresh instance from a 16-pair menu (long-then-short included)"),
         ]
